@@ -569,7 +569,7 @@ func (m *machine) getHealth(t *rapid.T, path string) {
 func TestPropSequential(t *testing.T) {
 	rec.Assume("scheduler-pulse threshold semantics are exercised with margins (next run 10 min / 2 h in the past against a 1 h threshold, 30 min in the future): SchedulerPulseCheck's clock cannot be injected from outside its package")
 	rec.Assume("freshness staleness is exercised with a 1 h budget (fresh) and a negative budget (every completed probe is stale)")
-	rec.Check(t, 6000, 180000, func(t *rapid.T) {
+	rec.Check(t, 6000, 120000, func(t *rapid.T) {
 		m := &machine{h: ihttp.NewHealthReadyHandler(nil)}
 		n := rapid.IntRange(10, 45).Draw(t, "steps")
 		for i := 0; i < n; i++ {
